@@ -159,7 +159,7 @@ def main():
     sopht_modules()
     s3 = [(5, 5, 5), (5, 6, 7)] if chk.quick else [(5, 5, 5), (5, 6, 7), (7, 5, 6), (6, 6, 6)]
     s2 = [(5, 6)] if chk.quick else [(5, 6), (7, 5), (6, 6)]
-    precisions = ["float64"] if chk.quick else ["float64", "float32"]
+    precisions = ["float64", "float32"]
     for rt in precisions:
         for sh in s3:
             for reset in (True, False):
